@@ -590,7 +590,9 @@ class ParserSim:
     def assumptions(self, prop):
         return ["a fresh ExpressionParser() is history-free (it is the reference model)",
                 "the harness never mutates trees or Token objects returned by the parser",
-                "strings are <= ~100 characters with nesting <= 60",
+                "ordinary texts are <= ~100 characters with nesting <= 60; flat chains are explored up to 650 terms for "
+                "sums and 450 factors for products/quotients (the pinned parser's right-recursive parse_mult itself "
+                "raises RecursionError from ~990 chained factors; not explored, see DESIGN 12.13)",
                 "sampling: a clean batch is evidence, not proof"]
 
 
